@@ -205,6 +205,12 @@ func init() {
 		enumV3Temporal(r, P, st3, []int{1, 2}, []map[string]string{{}, {"CR": "X", "IR": "X", "AR": "X", "MAV": "X", "MAC": "X", "MPR": "X", "MUI": "X", "MS": "X", "MC": "X", "MI": "X", "MA": "X"}})
 		enumV2Temporal(r, P, st2, []int{1, 2}, []map[string]string{{}, {"CDP": "H", "TD": "N", "CR": "H", "IR": "H", "AR": "H"}, {"CDP": "ND", "TD": "ND", "CR": "ND", "IR": "ND", "AR": "ND"}})
 		envFullV2(r, false, false, true, 1, nil)
+		r.Phase("score sequences", func() {
+			for _, lv := range []int{1, 2} {
+				scoreSequences(r, 3, lv)
+				scoreSequences(r, 2, lv)
+			}
+		})
 		r.Set("exhaustive", true)
 		r.Set("rule", "complete v3 domain 2 x 2,592 x 100 at the temporal decoder and at the environmental decoder with the environmental metrics omitted and all written as X; complete v2 73,629 base/temporal domain at both decoders plus the complete 141M v2 environmental domain for TD:N => 0 and group absent => temporal score; relations: temporal(all ND)==base, environmental(all ND)==temporal except v3.1 with S:C, TD:N => 0, temporal<=base; distinct by token set")
 	})
